@@ -241,28 +241,41 @@ def timers(prog, rep, ver, mod):
     hb = lv[0]
     hir = IR(hb)
     be = BitEval(prog)
-    okl = False
+    # the comparison may sit in a closure handed to Option::map or in the body itself (`match self.to_opt() { Some(d) => .. }`)
+    cands = []
     for bi, t in hb.calls():
         if (t.get("callee") or "") == "std::option::Option::map":
             e = hir.call_expr(bi, t)
-            cl = [x for x in walk(e) if isinstance(x, tuple) and x and x[0] == "agg" and x[1] == "closure"]
-            if cl:
-                try:
-                    ce, rb = be.ret_expr(cl[0][2])
-                except Unsupported:
-                    continue
-                if ce[0] == "bin" and ce[1] in ("Le", "Ge", "Lt", "Gt"):
-                    op = ce[1]
-                    now_left = "time(" in show(strip_sites(ce[2])) or "Callback" in show(strip_sites(ce[2]))
-                    if now_left:
-                        op = {"Le": "Ge", "Ge": "Le", "Lt": "Gt", "Gt": "Lt"}[op]
-                    okl = op == "Le"
-                elif ce[0] == "call" and ce[1].split("::")[-1] in ("le", "ge", "lt", "gt") and len(ce[2]) == 2:
-                    op = {"le": "Le", "ge": "Ge", "lt": "Lt", "gt": "Gt"}[ce[1].split("::")[-1]]
-                    a0 = show(strip_sites(ce[2][0]))
-                    if "time(" in a0 or "Callback" in a0:
-                        op = {"Le": "Ge", "Ge": "Le", "Lt": "Gt", "Gt": "Lt"}[op]
-                    okl = op == "Le"
+            for x in walk(e):
+                if isinstance(x, tuple) and x and x[0] == "agg" and x[1] == "closure":
+                    try:
+                        ce, rb = be.ret_expr(x[2])
+                        cands.append(ce)
+                    except Unsupported:
+                        pass
+        f_ = (t.get("callee") or "")
+        if f_.split("::")[-1] in ("le", "ge", "lt", "gt") and ("PartialOrd" in f_ or "cmp::" in f_):
+            cands.append(hir.call_expr(bi, t))
+    for bi in sorted(hb.live):
+        for si, st in enumerate(hb.blocks[bi]["st"]):
+            if st["k"] == "assign" and st["r"]["k"] == "bin" and st["r"].get("op") in ("Le", "Ge", "Lt", "Gt"):
+                cands.append(hir.rvalue(st["r"], (bi, si)))
+    verdicts = []
+    for ce in cands:
+        op = None
+        if ce[0] == "bin" and ce[1] in ("Le", "Ge", "Lt", "Gt"):
+            op = ce[1]
+            now_left = "time(" in show(strip_sites(ce[2])) or "Callback" in show(strip_sites(ce[2]))
+        elif ce[0] == "call" and ce[1].split("::")[-1] in ("le", "ge", "lt", "gt") and len(ce[2]) == 2:
+            op = {"le": "Le", "ge": "Ge", "lt": "Lt", "gt": "Gt"}[ce[1].split("::")[-1]]
+            a0 = show(strip_sites(ce[2][0]))
+            now_left = "time(" in a0 or "Callback" in a0
+        if op is None:
+            continue
+        if now_left:
+            op = {"Le": "Ge", "Ge": "Le", "Lt": "Gt", "Gt": "Lt"}[op]
+        verdicts.append(op == "Le")
+    okl = bool(verdicts) and all(verdicts)
     rep.ob(rule, "%s | a timer has triggered when deadline <= now" % ver, okl,
            "has_triggered_level = deadline.map(|t| t <= cb.time())" if okl else
            "has_triggered_level does not fire at the deadline itself: ticking at the time needs_tick() reports makes no progress", hb.loc())
